@@ -4,6 +4,7 @@ import CoapVerif.Lemmas.ObserveRef
 import CoapVerif.Lemmas.ObserveAbsent
 import CoapVerif.Lemmas.ObserveWake
 import CoapVerif.Lemmas.ObserveVer
+import CoapVerif.Lemmas.ObserveStale
 /-
 C11 — Observe: registered observers get fresh, ordered notifications until cancelled.
 Property theorems about M (CoapVerif/Model/Observe.lean), which T2 ties to the compiled libcoap on every run.
@@ -871,5 +872,90 @@ theorem reachable_invariants_init (res : List Res) (stTicks : Nat) (evs : List E
 
 example : ([mkRes 0 false false 16777214, mkRes 1 true false 7].map (·.id)).Nodup ∧
     ∀ y ∈ [mkRes 0 false false 16777214, mkRes 1 true false 7], y.subs = [] ∧ y.dirty = false := by decide
+
+
+theorem sum_zero_of_all_zero : ∀ (l : List Nat), (∀ x ∈ l, x = 0) → l.sum = 0
+  | [], _ => rfl
+  | a :: t, h => by
+    simp only [List.sum_cons]
+    rw [h a (List.mem_cons_self ..), sum_zero_of_all_zero t (fun x hx => h x (List.mem_cons_of_mem _ hx))]
+
+/-! ### GLOBAL: progress measure for "eventually" — the number of stale entries of a session -/
+/-- `staleOf c st` = number of entries of session c on alive resources that have not been told the current state.
+    It is 0 exactly when every such entry is clean on a clean resource (then `clean_entry_holds_latest` applies). -/
+theorem staleOf_zero_iff (c : Nat) (st : State) :
+    staleOf c st = 0 ↔ ∀ y ∈ st.res, y.alive = true → ∀ o ∈ y.subs, o.sess = c → y.dirty = false ∧ o.dirty = false := by
+  unfold staleOf
+  constructor
+  · intro h y hy hal o ho hc
+    have h1 := sum_eq_zero_mem _ h _ (List.mem_map_of_mem (f := staleR c) hy)
+    unfold staleR at h1
+    rw [if_pos hal] at h1
+    have h2 : (y.subs.filter (staleP c y)) = [] := List.eq_nil_of_length_eq_zero h1
+    have h3 := List.filter_eq_nil_iff.mp h2 o ho
+    simp [staleP, hc] at h3
+    exact h3
+  · intro h
+    apply sum_zero_of_all_zero
+    intro x hx
+    obtain ⟨y, hy, rfl⟩ := List.mem_map.mp hx
+    unfold staleR
+    split
+    · rename_i hal
+      rw [List.length_eq_zero_iff, List.filter_eq_nil_iff]
+      intro o ho
+      by_cases hc : o.sess = c
+      · have := h y hy hal o ho hc
+        simp [staleP, this.1, this.2]
+      · simp [staleP, hc]
+    · rfl
+
+/-- an I/O step (`adv`) and an ACK never add a stale entry: only a new change (`chg`, `del`) or a registration on a dirty
+    resource does -/
+theorem quiet_events_never_add_stale (c : Nat) : ∀ (evs : List Event) (st : State),
+    (∀ e ∈ evs, (∃ ms, e = .adv ms) ∨ (∃ c' n, e = .ack c' n)) → staleOf c (run st evs).1 ≤ staleOf c st
+  | [], _, _ => Nat.le_refl _
+  | e :: es, st, h => by
+    rw [run_cons]
+    have h1 : staleOf c (step st e).1 ≤ staleOf c st := by
+      rcases h e (List.mem_cons_self ..) with ⟨ms, rfl⟩ | ⟨c', n, rfl⟩
+      · exact io_stale_le { st with now := st.now + ms } c
+      · unfold step; dsimp only
+        split
+        · split
+          · unfold rxThenIo
+            dsimp only
+            refine Nat.le_trans (io_stale_le _ c) ?_
+            unfold staleOf
+            exact staleOf_le_of_le c (handleAck_leF ..)
+          · exact Nat.le_refl _
+        · exact Nat.le_refl _
+    exact Nat.le_trans (quiet_events_never_add_stale c es _ (fun e' he' => h e' (List.mem_cons_of_mem _ he'))) h1
+
+/-- every FAIR I/O step serves one more: after any run, if session o.sess has fewer than NSTART Confirmables in flight and `o` is
+    its first stale entry in walk order, the step strictly decreases the number of stale entries of that session (whatever the
+    handler answers).  With `quiet_events_never_add_stale`: under fairness (each Confirmable eventually acknowledged or given
+    up, the I/O loop keeps running) and no further change, after at most `staleOf` rounds no entry of the session is stale —
+    everybody holds the latest state (`staleOf_zero_iff`, `clean_entry_holds_latest`). -/
+theorem fair_step_decreases_stale (st0 : State) (evs : List Event) (ms : Nat) (hid : IdsNodup st0) (hw : Wake st0)
+    (pre post : List Res) (y : Res) (spre spost : List Sub) (o : Sub)
+    (hres : (run st0 evs).1.res = pre ++ y :: post) (hsubs : y.subs = spre ++ o :: spost)
+    (hal : y.alive = true) (hst : y.dirty = true ∨ o.dirty = true)
+    (hcon : (getSess (run st0 evs).1 o.sess).conActive < obsNstart)
+    (hpre : ∀ y1 ∈ pre, y1.alive = true → ∀ o1 ∈ y1.subs, o1.sess = o.sess → y1.dirty = false ∧ o1.dirty = false)
+    (hspre : ∀ o1 ∈ spre, o1.sess = o.sess → y.dirty = false ∧ o1.dirty = false) :
+    staleOf o.sess (run st0 (evs ++ [.adv ms])).1 < staleOf o.sess (run st0 evs).1 := by
+  have hy : y ∈ (run st0 evs).1.res := by rw [hres]; simp
+  have ho : o ∈ y.subs := by rw [hsubs]; simp
+  obtain ⟨hp, hwalk⟩ := stale_entry_keeps_wakeup st0 evs hid hw y hy hal o ho hst
+  rw [run_append]
+  simp only [run_cons, run_nil]
+  exact io_stale_lt { (run st0 evs).1 with now := (run st0 evs).1.now + ms } pre post y spre spost o hres hsubs hp hal hwalk hst
+    (first_stale_entry_not_backPressured _ pre y spre o (by rw [getSess_conActive_now]; exact hcon) hpre hspre)
+
+/-- witness (the deferred entry of `lateEvents`, acknowledged): one stale entry before the fair step, none after -/
+example : staleOf 0 ackedSt = 1 ∧ staleOf 0 (io ackedSt).1 = 0 := by decide
+example : staleOf 0 (run runStart lateEvents).1 = 1 ∧ staleOf 0 (run runStart (lateEvents ++ [.ack 0 1000])).1 = 0 := by decide
+
 
 end Coap.C11
